@@ -256,7 +256,7 @@ Section Verify.
   (* x509_signed_verify: outer algorithm must be sm2sign-with-sm3, signature checked over the TBS bytes *)
   Definition signed_verify (k : key) (a : list N) : bool :=
     match signed_from_der a with
-    | Some (tbs, alg, sig) => bytes_eq alg alg_sm2sm3 && check k tbs sig
+    | Some (tbs, alg, sig) => alg_is_sm2sm3 alg && check k tbs sig
     | None => false
     end.
 
@@ -283,7 +283,7 @@ Section Verify.
     signed_verify k (sign_to_der vs alg_sm2sm3 (sign k)) = true.
   Proof.
     intros Hc k vs Hs. unfold signed_verify. rewrite signed_from_der_of_sign by exact Hs.
-    rewrite Hc, andb_true_r. apply bytes_eqb. reflexivity.
+    rewrite Hc, andb_true_r. reflexivity.
   Qed.
 
   (* with the idealisation "a signature made with k does not check under another key" *)
@@ -295,11 +295,33 @@ Section Verify.
     rewrite (Hc k k' _ Hk). apply andb_false_r.
   Qed.
 
-  Theorem alg_mismatch_rejected : forall k vs alg sigf, sizes_ok vs alg sigf -> alg <> alg_sm2sm3 ->
+  Lemma octets_eq_iff : forall a b, octets_eq a b = true <-> a = b.
+  Proof.
+    induction a as [|x a IH]; intros [|y b]; cbn; split; intros H; try reflexivity; try discriminate.
+    - apply andb_true_iff in H. destruct H as [H1 H2]. apply N.eqb_eq in H1. apply IH in H2. subst. reflexivity.
+    - inversion H; subst. rewrite N.eqb_refl. apply IH. reflexivity.
+  Qed.
+
+  (* whatever the signature bits are, an outer algorithm identifier other than sm2sign-with-sm3
+     (parameters absent or NULL) is refused: the signature is not even looked at *)
+  Theorem alg_mismatch_rejected : forall k vs alg sigf, sizes_ok vs alg sigf ->
+    alg <> alg_sm2sm3 -> alg <> alg_sm2sm3_null ->
     signed_verify k (sign_to_der vs alg sigf) = false.
   Proof.
-    intros k vs alg sigf Hs Ha. unfold signed_verify. rewrite signed_from_der_of_sign by exact Hs.
-    destruct (bytes_eq alg alg_sm2sm3) eqn:E; [|reflexivity]. apply bytes_eqb in E. contradiction.
+    intros k vs alg sigf Hs Ha Hb. unfold signed_verify. rewrite signed_from_der_of_sign by exact Hs.
+    unfold alg_is_sm2sm3.
+    destruct (octets_eq alg alg_sm2sm3) eqn:E; [apply octets_eq_iff in E; contradiction|].
+    destruct (octets_eq alg alg_sm2sm3_null) eqn:E2; [apply octets_eq_iff in E2; contradiction|]. reflexivity.
+  Qed.
+
+  (* acceptance implies both: the identifier is sm2sign-with-sm3 and the check over the TBS bytes succeeds *)
+  Theorem signed_verify_decision_rule : forall k a, signed_verify k a = true ->
+    exists tbs alg sig, signed_from_der a = Some (tbs, alg, sig) /\
+      (alg = alg_sm2sm3 \/ alg = alg_sm2sm3_null) /\ check k tbs sig = true.
+  Proof.
+    intros k a H. unfold signed_verify in H. destruct (signed_from_der a) as [[[tbs alg] sig]|]; [|discriminate].
+    apply andb_true_iff in H. destruct H as [Ha Hc]. exists tbs, alg, sig. split; [reflexivity|]. split; [|exact Hc].
+    unfold alg_is_sm2sm3 in Ha. apply orb_true_iff in Ha. destruct Ha as [Ha|Ha]; apply octets_eq_iff in Ha; auto.
   Qed.
 
   Theorem trailing_rejected : forall k vs alg sigf x r, sizes_ok vs alg sigf ->
